@@ -97,4 +97,15 @@ def cases(tier):
                            weight=n * n, argsort_mode="fork-ties" if (n == 3 and k == 1) else "fork"))
     cs.append(dict(name="de.n4", fn=h_de, params=dict(n=4), profile="fp", budget_s=1500, weight=20))
     cs.append(dict(name="de.dither.n4", fn=h_de, params=dict(n=4, dither=True), profile="fp", budget_s=1500, weight=20))
+    # the real engines (SEA, DE, SHADE, CMA-ES) along real histories, both directions, plateau objective (ties) included
+    from .trun import run_cases
+    from .tstep import tree_cases
+    tc = [c for c in tree_cases(PROPERTY, tier, hibernation_values=(False,)) if any(k in c["name"] for k in ("shade", "de-", "ea-cma", "terrace", ".g3"))]
+    rc = run_cases(PROPERTY, tier, hib_values=(False,))
+    for c in tc + rc:
+        cs.append(c)
+        c2 = dict(c)
+        c2["params"] = dict(c["params"], maximize=True)
+        c2["name"] = c["name"] + ".maximize"
+        cs.append(c2)
     return cs
